@@ -27,6 +27,125 @@ def partition(rng, items):
     return out
 
 
+# ------------------------------------------------------------------------------------------ wide weights
+# Every WIDE_EVERY-th case index comes from the "wide weights" streams (the other indices keep their cases bit for bit).
+WIDE_EVERY, WIDE_SLOT = 8, 3
+# ND histograms, FLOAT weights of widely different magnitudes, some rows outside every cell: on the unchanged library
+# h(...) / fill_n report  missed = weights.sum() - frequencies.sum()  (two rounded sums over ALL rows), so the weight of a
+# missed row next to a much heavier cell is lost (h([[.5,.5],[5,.5]], 2x2 unit bins, weights=[2**60, 1.0]).missed == 0.0,
+# one fill at a time gives 1.0).  Reported, not generated (set True to see it).
+ENABLE_ND_WIDE_FLOAT_MISSED = False
+
+WIDE_PROFILES = ["descending", "descending", "descending", "ascending", "random", "alternating", "alternating",
+                 "one_huge", "huge_outside", "tiny_outside"]
+
+
+def _v2(f: Fraction) -> int:
+    """exponent of the lowest set bit of a non-zero dyadic rational"""
+    n, d = abs(f.numerator), f.denominator
+    assert n and d & (d - 1) == 0, f
+    return (n & -n).bit_length() - 1 - (d.bit_length() - 1)
+
+
+def summable(ws, integer=False) -> bool:
+    """every partial sum of the numbers (in any order, any grouping) and of their squares is an exactly representable
+    double (and inside int64 for integer weights): all are multiples of 2^a and the absolute values add up to < 2^(a+53)"""
+    ws = [Fraction(w) for w in ws if Fraction(w) != 0]
+    if not ws:
+        return True
+    for xs in (ws, [w * w for w in ws]):
+        a = min(_v2(x) for x in xs)
+        tot = sum(abs(x) for x in xs)
+        if tot >= Fraction(2) ** (a + 53) or (integer and tot >= 2 ** 63):
+            return False
+        if any(abs(x) >= Fraction(2) ** 1000 or abs(x) < Fraction(1, 2 ** 1000) for x in xs):
+            return False
+    return True
+
+
+def region1(pairs, v):
+    """where a value goes in 1-D bins given as Fractions: -1 underflow, i bin, i + 1/2 the gap after bin i, n overflow"""
+    if v is None:
+        return None
+    n = len(pairs)
+    if v < pairs[0][0]:
+        return -1
+    if v > pairs[-1][1]:
+        return n
+    for i, (l, r) in enumerate(pairs):
+        if l <= v and (v < r or (i == n - 1 and v == r)):
+            return i
+    for i in range(n - 1):
+        if pairs[i][1] <= v < pairs[i + 1][0]:
+            return Fraction(2 * i + 1, 2)
+    raise AssertionError((pairs, v))
+
+
+def wide_weights(rng, regions, kind, profile, signed, outside=()):
+    """one weight per entry; `regions[i]` is the key of the place the entry goes to (None = NaN entry, counted nowhere).
+    Every place gets a magnitude (a power of two) of its own, the magnitudes of different places differ by many orders;
+    within one place the weights are small multiples of that power of two, so every sum of a subset of them and of their
+    squares is exact in double (int64) arithmetic whatever the order.  signed: negative weights too, but the running total
+    of every place (in entry order) never goes below zero (a negative bin content is legitimately refused at construction)."""
+    # the places in the order of the data values (1-D: numbers; ND: index tuples, then "missed")
+    present = sorted({r for r in regions if r is not None}, key=lambda r: (1, ()) if isinstance(r, str) else (0, r))
+    if kind == "int":
+        lo, hi, near = 0, 27, 3
+    elif rng.random() < 0.15:
+        lo, hi, near = -300, 300, 40
+    else:
+        lo, hi, near = -60, 60, 8
+    big = lambda: rng.randint(hi - near, hi)
+    small = lambda: rng.randint(lo, lo + near)
+    m = len(present)
+    if m == 0:
+        ex = []
+    elif profile in ("descending", "ascending"):
+        ex = sorted([rng.randint(lo, hi) for _ in range(m)], reverse=True)
+        if m >= 2:
+            ex[0], ex[-1] = big(), small()
+        if profile == "ascending":
+            ex.reverse()
+    elif profile == "alternating":
+        first = rng.random() < 0.7
+        ex = [big() if (j % 2 == 0) == first else small() for j in range(m)]
+    elif profile == "one_huge":
+        t = small()
+        ex = [t] * m
+        ex[rng.randrange(m) if rng.random() < 0.5 else 0] = big()
+    elif profile in ("huge_outside", "tiny_outside"):
+        out_e, in_e = (big, small) if profile == "huge_outside" else (small, big)
+        ex = [out_e() if r in outside else in_e() for r in present]
+    else:
+        ex = [rng.randint(lo, hi) for _ in range(m)]
+    exp_of = dict(zip(present, ex))
+    running = {}
+    ws = []
+    for r in regions:
+        e = exp_of.get(r, 0)
+        mant = rng.choice([1, 2, 3, 4]) if kind == "int" else rng.choice([1, 1, 2, 3, 5, 6, 7]) * 2 ** rng.choice([0, 0, 0, 1, 2, 5])
+        w = Fraction(mant) * Fraction(2) ** e
+        if signed and r is not None and rng.random() < 0.4 and running.get(r, 0) - w >= 0:
+            w = -w
+        if r is not None:
+            running[r] = running.get(r, 0) + w
+        ws.append(w)
+    for r in present:
+        assert summable([w for w, q in zip(ws, regions) if q == r], integer=(kind == "int")), (r, ws)
+    return ws
+
+
+def prefixes_nonnegative(regions, ws) -> bool:
+    running = {}
+    for r, w in zip(regions, ws):
+        if r is None:
+            continue
+        running[r] = running.get(r, 0) + Fraction(w)
+        if running[r] < 0:
+            return False
+    return True
+
+
 class C03(Hist1Prop):
     ID = "C03"
     N_QUICK = 300
@@ -37,15 +156,27 @@ class C03(Hist1Prop):
             "half of the cases also a histogram constructed from a first chunk (also an empty one) and completed by fill / fill_n; "
             "in a third of the gap-free cases an in-place merge_bins (axis given or not) in the middle of both incremental paths, "
             "compared with the merged construction. "
+            "every 8th case (stream:wide_weights, 1-D and ND): float (powers of two times small integers, 2^-300..2^300) or int64 "
+            "(up to 2^29) weights whose magnitudes differ by many orders between bins / underflow / overflow / cells while every "
+            "per-bin sum of weights and of squares is exactly representable (profiles descending / ascending / alternating / random "
+            "/ one huge / huge or tiny outside; signed with non-negative running totals): all paths must equal the exact rational "
+            "sums per bin (ND float: no rows outside the bins, see ENABLE_ND_WIDE_FLOAT_MISSED). "
             "non-trivial = some value inside a bin and some outside or on an edge; distinct = hash of the op list")
     FIELDS = {"bins", "freq", "err2", "under", "over", "total", "keep"}
 
     def fields_for(self, case):
+        f = self.FIELDS
+        if (case.get("src", {}).get("wide") or {}).get("kind") == "float":
+            # `total` adds the bin contents ACROSS bins in floating point: with contents of widely different magnitudes that
+            # sum is rounded (the exact model's is not), and the property is about the contents, not about their total
+            f = f - {"total"}
         if "tiny_gap" in case.get("tags", []):
-            return self.FIELDS - {"under", "over"}
-        return self.FIELDS
+            return f - {"under", "over"}
+        return f
 
     def gen_case(self, rng, k, tier):
+        if k % WIDE_EVERY == WIDE_SLOT:
+            return self.gen_wide(rng)
         if rng.random() < 0.35:
             from . import nd_parts
             return nd_parts.c03_gen(rng)
@@ -78,6 +209,109 @@ class C03(Hist1Prop):
         if "gapped" not in tags and "tiny_gap" not in tags and len(pairs) >= 2 and rng.random() < 0.3:
             src["merge"] = {"amount": rng.choice([2, 2, 3]), "at": rng.randint(0, n), "axis_none": rng.random() < 0.6}
         return self.build(src, tags)
+
+    # ---- weights of widely different magnitudes whose per-bin sums are still exact (1-D and ND)
+    def gen_wide(self, rng, geometry=None, profile=None, kind=None, nd=None):
+        kind = kind or rng.choice(["float", "float", "float", "int"])
+        profile = profile or rng.choice(WIDE_PROFILES)
+        signed = rng.random() < 0.3
+        if nd is None:
+            nd = rng.random() < 0.3
+        if nd:
+            return self.gen_wide_nd(rng, kind, profile, signed, geometry)
+        if geometry is None:
+            pairs, t = gen1.rising_bins(rng)
+            tags = [x for x in ("gapped", "tiny_gap") if t[x]]
+            b = gen1.binning_json(pairs, rng=rng, form=rng.choice(["pairs", "static_obj"]))
+            n = rng.choice([2, 3, 5, 8, 12, 20])
+            vals = gen1.values_for(rng, pairs, n, nan_share=rng.choice([0, 0, 0.1]))
+            lo, hi = pairs[0][0], pairs[-1][1]
+            if profile in ("huge_outside", "tiny_outside"):
+                # something below, something above and something inside the bins
+                vals[:0] = [lo - rng.choice([0.25, 1.0]), hi + rng.choice([0.25, 1.0]), lo + (pairs[0][1] - lo) * 0.5]
+                rng.shuffle(vals)
+            elif len(vals) >= 2 and rng.random() < 0.6:
+                # at least two different bins (or a bin and the underflow) are hit
+                vals[0] = pairs[0][0] + (pairs[0][1] - pairs[0][0]) * 0.5
+                vals[1] = pairs[-1][0] if len(pairs) > 1 else lo - 0.25
+                rng.shuffle(vals)
+            vals = gen1.enc_vals(vals)
+        else:
+            b, vals, tags = geometry
+        n = len(vals)
+        fp = [(Fraction(l), Fraction(r)) for l, r in b["bins"]]
+        regions = [region1(fp, None if v is None else Fraction(v)) for v in vals]
+        ws = wide_weights(rng, regions, kind, profile, signed, outside=(-1, len(fp)))
+        order = list(range(n)); rng.shuffle(order)
+        order2 = list(range(n)); rng.shuffle(order2)
+        if rng.random() < 0.25:
+            order2.sort(key=lambda i: (vals[i] is None, Fraction(vals[i] or 0)), reverse=rng.random() < 0.5)    # batches in value order
+        batches = [order2] if rng.random() < 0.3 else partition(rng, order2)
+        src = {"binning": b, "vals": vals, "ws": [rs(w) for w in ws], "wk": "float64" if kind == "float" else "int64",
+               "keep": rng.random() < 0.7, "order": order, "batches": batches,
+               "containers": [rng.choice([None, "list"]) for _ in range(3 * n + 4)],
+               "wide": {"kind": kind, "profile": profile, "signed": signed}}
+        if rng.random() < 0.5:
+            src["pre"] = rng.choice([0, 1, n // 2, n])
+        return self.build(src, list(tags) + self.wide_tags(src))
+
+    @staticmethod
+    def wide_tags(src):
+        w = src["wide"]
+        return ["stream:wide_weights", f"wide:{w['kind']}", f"wide_profile:{w['profile']}"] + (["wide:signed"] if w["signed"] else [])
+
+    def gen_wide_nd(self, rng, kind, profile, signed, geometry=None):
+        from . import nd_parts
+        from .. import gennd
+        if geometry is None:
+            d = rng.choice([2, 2, 3])
+            axes = [gennd.axis_binning(rng, maxbins=3, allow_fixed=False) for _ in range(d)]
+            n = rng.choice([2, 4, 8, 14])
+            rows = gennd.rows_for(rng, [a[1] for a in axes], n, nan_share=rng.choice([0, 0.1]))
+            fax = [([(Fraction(l), Fraction(r)) for l, r in a[1]], a[2]) for a in axes]
+            inside = lambda: [rng.choice([l, l + (r - l) * 0.5]) for l, r in (rng.choice(a[1]) for a in axes)]
+            for i, row in enumerate(rows):
+                if any(v is None for v in row):
+                    continue
+                out = gennd.cell_of(fax, [Fraction(v) for v in row]) is None
+                if out and (rng.random() < 0.5 or (kind == "float" and not ENABLE_ND_WIDE_FLOAT_MISSED)):
+                    rows[i] = inside()
+            if profile in ("huge_outside", "tiny_outside") and (kind == "int" or ENABLE_ND_WIDE_FLOAT_MISSED):
+                rows.append([a[1][-1][1] + 1.0 for a in axes])
+                rows.append(inside())
+            axes_json, rows = [a[0] for a in axes], gennd.enc_rows(rows)
+        else:
+            axes_json, rows = geometry
+        n = len(rows)
+        fax = [([(Fraction(l), Fraction(r)) for l, r in a["bins"]], a.get("ire", True)) for a in axes_json]
+        regions = [None if any(v is None for v in row) else (gennd.cell_of(fax, [Fraction(v) for v in row]) or "missed") for row in rows]
+        if kind == "float" and not ENABLE_ND_WIDE_FLOAT_MISSED and "missed" in regions:
+            kind = "int"        # (only with a given geometry) rows outside the bins: integer weights, see the constant
+        ws = wide_weights(rng, regions, kind, profile, signed, outside=("missed",))
+        order = list(range(n)); rng.shuffle(order)
+        order2 = list(range(n)); rng.shuffle(order2)
+        src = {"axes": axes_json, "rows": rows, "ws": [rs(w) for w in ws], "wk": "float64" if kind == "float" else "int64",
+               "keep": rng.random() < 0.7, "order": order, "batches": [order2] if rng.random() < 0.3 else partition(rng, order2),
+               "wide": {"kind": kind, "profile": profile, "signed": signed}}
+        case = nd_parts.c03_build(src)
+        case["tags"] = case["tags"] + self.wide_tags(src)
+        return case
+
+    @staticmethod
+    def wide_wellformed(src) -> bool:
+        """signed weights: no place may have a negative running total in entry order (every construction from a prefix of
+        the entries must be a valid histogram)"""
+        if not src.get("wide") or src["ws"] is None:
+            return True
+        if "rows" in src:
+            from .. import gennd
+            fax = [([(Fraction(l), Fraction(r)) for l, r in a["bins"]], a.get("ire", True)) for a in src["axes"]]
+            regions = [None if any(v is None for v in row) else (gennd.cell_of(fax, [Fraction(v) for v in row]) or "missed")
+                       for row in src["rows"]]
+        else:
+            fp = [(Fraction(l), Fraction(r)) for l, r in src["binning"]["bins"]]
+            regions = [region1(fp, None if v is None else Fraction(v)) for v in src["vals"]]
+        return prefixes_nonnegative(regions, src["ws"])
 
     @staticmethod
     def build(src, tags):
@@ -127,7 +361,12 @@ class C03(Hist1Prop):
     def shrink_candidates(self, case):
         if case.get("kind") == "histn":
             from . import nd_parts
-            yield from nd_parts.c03_shrink(case)
+            for c in nd_parts.c03_shrink(case):
+                if c["src"].get("wide"):
+                    if not self.wide_wellformed(c["src"]):
+                        continue
+                    c["tags"] = c["tags"] + self.wide_tags(c["src"])
+                yield c
             return
         """remove one data point from all three paths"""
         import copy
@@ -145,12 +384,17 @@ class C03(Hist1Prop):
                 s2["pre"] = min(s2["pre"], n - 1) if i >= s2["pre"] else s2["pre"] - 1
             if "merge" in s2:
                 s2["merge"]["at"] = min(s2["merge"]["at"], n - 1)
+            if not self.wide_wellformed(s2):
+                continue        # signed weights: the positive partner of a negative weight stays
             yield self.build(s2, [t for t in case.get("tags", []) if not t.startswith(("prefilled", "merge_in"))])
 
     def oracle(self, case, io):
         if case.get("kind") == "histn":
             from . import nd_parts
-            return nd_parts.c03_oracle(case, io)
+            fails = nd_parts.c03_oracle(case, io)
+            if not fails and case["src"].get("wide"):
+                fails = self.exact_sums_nd(case, io)
+            return fails
         outs = io["outs"]
         ops = case["ops"]
         fails = []
@@ -205,7 +449,89 @@ class C03(Hist1Prop):
             for x in (b, c):
                 if x["under"] is not None or x["over"] is not None:
                     fails.append("keep_off: under/overflow reported although keep_missed=False")
+        if case["src"].get("wide"):
+            fails += self.exact_sums_1d(case, io)
         return fails
+
+    # ---- exact clauses of the wide-weights streams: every per-bin sum is exactly representable, so every entry path must
+    # give exactly the rational sums of the weights (and of their squares) per bin, whatever order it adds them in
+    @staticmethod
+    def exact_sums_1d(case, io):
+        src = case["src"]
+        final = io["outs"][-1]["regs"]
+        names = {0: "construction at once", 1: "fill one at a time", 2: "fill_n in batches",
+                 3: "construction from a first chunk + fill", 4: "construction from a first chunk + fill_n"}
+        fails = []
+        for reg, name in names.items():
+            if reg >= len(final) or final[reg] is None:
+                continue
+            x = final[reg]
+            fp = [(Fraction(l), Fraction(r)) for l, r in x["bins"]]
+            nb = len(fp)
+            places = {}
+            for v, w in zip(src["vals"], src["ws"]):
+                r = region1(fp, None if v is None else Fraction(v))
+                if r is not None:
+                    places.setdefault(r, []).append(Fraction(w))
+            if not all(summable(ws, integer=src["wk"] == "int64") for ws in places.values()):
+                return []       # not a case of this class (the sums themselves would be rounded)
+            freq = [sum(places.get(i, []), Fraction(0)) for i in range(nb)]
+            err2 = [sum((w * w for w in places.get(i, [])), Fraction(0)) for i in range(nb)]
+            for f, exp in (("freq", freq), ("err2", err2)):
+                if [Fraction(v) for v in x[f]] != exp:
+                    fails.append(f"exact_{f}: {name} gives {x[f]}, the exact sums of the weights{' squared' if f == 'err2' else ''} "
+                                 f"per bin are {[rs(e) for e in exp]} (all exactly representable)")
+            for f, r in (("under", -1), ("over", nb)):
+                if x[f] is not None and x["keep"] and Fraction(x[f]) != sum(places.get(r, []), Fraction(0)):
+                    fails.append(f"exact_{f}: {name} gives {f}flow {x[f]}, the exact sum of the weights there is "
+                                 f"{rs(sum(places.get(r, []), Fraction(0)))}")
+        return fails[:4]
+
+    @staticmethod
+    def exact_sums_nd(case, io):
+        from .. import gennd
+        src = case["src"]
+        a, b, c = io["outs"][-1]["regs"][:3]
+        fails = []
+        for name, x, tracks in (("construction at once", a, True), ("fill one at a time", b, src["keep"]), ("fill_n in batches", c, src["keep"])):
+            axes = [([(Fraction(l), Fraction(r)) for l, r in rep], bj.get("ire", True)) for bj, rep in zip(src["axes"], x["bins"])]
+            places = {}
+            for row, w in zip(src["rows"], src["ws"]):
+                if any(v is None for v in row):
+                    continue
+                places.setdefault(gennd.cell_of(axes, [Fraction(v) for v in row]) or "missed", []).append(Fraction(w))
+            if not all(summable(ws, integer=src["wk"] == "int64") for ws in places.values()):
+                return []
+            cells = gennd.unravel(x["shape"])
+            freq = [sum(places.get(cell, []), Fraction(0)) for cell in cells]
+            err2 = [sum((w * w for w in places.get(cell, [])), Fraction(0)) for cell in cells]
+            for f, exp in (("freq", freq), ("err2", err2)):
+                if [Fraction(v) for v in x[f]] != exp:
+                    fails.append(f"exact_{f}: {name} gives {x[f]}, the exact sums of the weights{' squared' if f == 'err2' else ''} "
+                                 f"per cell are {[rs(e) for e in exp]} (all exactly representable)")
+            missed = sum(places.get("missed", []), Fraction(0))
+            if tracks and (x["missed"] is None or Fraction(x["missed"]) != missed):
+                fails.append(f"exact_missed: {name} gives missed={x['missed']}, the exact sum of the weights outside the bins is {rs(missed)}")
+        return fails[:4]
+
+    def neighbours(self, case):
+        """around a case on which the model and the implementation disagree: the same bins and values with weights of widely
+        different magnitudes (exact per-bin sums) in several profiles, one batch / value-ordered batches among them"""
+        from ..core import Rng, case_hash
+        src = case.get("src") or {}
+        h = case_hash(case)
+        if case.get("kind") == "histn":
+            if not all(a.get("t") == "static" for a in src.get("axes", [])):
+                return
+            for j, (prof, kind) in enumerate([("descending", "float"), ("alternating", "float"), ("one_huge", "float"), ("descending", "int")]):
+                yield self.gen_wide(Rng(f"nb:{h}:{j}"), geometry=(src["axes"], src["rows"]), profile=prof, kind=kind, nd=True)
+            return
+        if (src.get("binning") or {}).get("t") != "static":
+            return
+        tags = [t for t in case.get("tags", []) if t in ("gapped", "tiny_gap")]
+        for j, (prof, kind) in enumerate([("descending", "float"), ("alternating", "float"), ("huge_outside", "float"),
+                                          ("one_huge", "float"), ("ascending", "float"), ("descending", "int")]):
+            yield self.gen_wide(Rng(f"nb:{h}:{j}"), geometry=(src["binning"], src["vals"], tags), profile=prof, kind=kind, nd=False)
 
     def nontrivial(self, case, io):
         outs = io["outs"]
